@@ -5,6 +5,9 @@ transition system (lean/Driver/LoopDrv.lean, `drv_loop`), shrinking, bounded exh
 A case (engine=loop) is one program + one schedule:
     mode plain|elt
     task <id>: <subs>          body of a task                 subs: q<id> r<id> p<id> quit startLoop destroy
+                                                              qburst<first>x<count> = q<first> q<first+1> … (shorthand,
+                                                              expanded by both drivers; ids of q/r up to 65535, a task
+                                                              without a `task` line has an empty body)
     pre: <subs>                what the owner does before loop() (elt: in the ThreadInitCallback)
     thread <k>: <subs>         program of thread k (plain: foreign threads k >= 1; elt: k = 0, the owner of the EventLoopThread)
     follow <k …> | schedule <int …>   (+ `spurious`: with a raw schedule the scheduler may wake a condition waiter
@@ -221,6 +224,7 @@ def oracle(prog, lines):
     appended = []      # (task id, thread) in the order of the `appended` points = mutex order
     taken = 0          # how many of them the swaps have taken out of the queue
     drained = 0        # how many of them were started by a drain
+    carried = None     # (line, n): a drain ended with n of the functors it took not run — they count as queued again
     ev = 0             # eventfd counter
     pipe = []          # posted, not yet handled
     phase = "before"   # of the loop thread
@@ -244,8 +248,13 @@ def oracle(prog, lines):
         pending = len(appended) - taken
         if pending > 0:
             if not any(c.kind in ("q", "r") and c.appended and not c.woke for st in calls.values() for c in st):
-                fail("lost-wakeup", "the loop is in poll with %d queued functor(s) (first: task %d), the wake-up descriptor is "
-                     "not readable and no thread is between its append and its wakeup()" % (pending, appended[taken][0]))
+                if carried and drained < carried[2]:
+                    fail("task-dropped", "the drain that ended at line %d left %d of the functors it had taken out of the queue "
+                         "not run (next: task %d); the loop is in poll, the wake-up descriptor is not readable and nobody is "
+                         "about to write it" % (carried[0], carried[1], appended[taken][0]))
+                else:
+                    fail("lost-wakeup", "the loop is in poll with %d queued functor(s) (first: task %d), the wake-up descriptor "
+                         "is not readable and no thread is between its append and its wakeup()" % (pending, appended[taken][0]))
         if quit_seen and not fails:
             if not any(c.kind in ("quit", "destroy") and c.stored and not c.woke for st in calls.values() for c in st):
                 fail("quit-lost", "the loop is in poll after quit() stored its flag, the wake-up descriptor is not readable "
@@ -373,8 +382,12 @@ def oracle(prog, lines):
             pass
         elif what == "point loop:afterFunctors":
             if drained != taken:
-                fail("task-dropped", "the drain ended with %d of the %d functors it took not run (next: task %d)"
-                     % (taken - drained, taken, appended[drained][0]))
+                # The property does not say that one drain runs everything it swapped out (a bounded batch that puts the
+                # rest back and wakes the loop is as good).  What it says is judged by the other rules, with the remainder
+                # counted as queued again: it must run next, in submission order (`order`), the loop must not sleep on it
+                # (`task-dropped` / `lost-wakeup` at the next poll), loop() must not return without it (`drain-on-exit`).
+                carried = (pos, taken - drained, taken)
+                taken = drained
             phase = "between"
         elif what == "point loop:exit":
             if not quit_seen:
@@ -712,6 +725,9 @@ def contexts(prog, impl):
 
 # ----------------------------------------------------------------------------- shrinking
 
+_BURST = re.compile(r"^qburst(\d+)x(\d+)$")
+
+
 def _atoms(prog):
     a = []
     for i in sorted(prog.tasks):
@@ -769,6 +785,21 @@ def shrink(prog, still, budget=250):
     if not fails(atoms):
         return prog
     small = ddmin(atoms, fails, keep_prefix=0, budget=budget)
+    # a burst is one atom: find the smallest count that still fails (bisection; the result is re-checked by the caller)
+    for i, a in enumerate(small):
+        m = _BURST.match(a.split("|")[3])
+        if not m or a.split("|")[0] == "sched":
+            continue
+        first, lo, hi = int(m.group(1)), 1, int(m.group(2))     # invariant: count hi fails
+        head = "|".join(a.split("|")[:3])
+        while lo < hi:
+            mid = (lo + hi) // 2
+            cand = small[:i] + ["%s|qburst%dx%d" % (head, first, mid)] + small[i + 1:]
+            if fails(cand):
+                hi = mid
+            else:
+                lo = mid + 1
+        small = small[:i] + ["%s|qburst%dx%d" % (head, first, hi)] + small[i + 1:]
     return _rebuild(prog, small)
 
 
@@ -847,6 +878,7 @@ class Runner:
         # implementation itself violates the property; it is reported at the end if nothing concrete was found
         self.deferred = []
         self.searched = False      # the targeted search programs have run
+        self.bursts_full = False   # the full list of burst programs has run
 
     def close(self):
         self.pool.shutdown(wait=True)
@@ -1012,6 +1044,38 @@ def exhaustive_programs(which):
     return out
 
 
+def burst_programs(rng, full):
+    """C04: more functors pending at one swap than any batching bound the drain could have, with a late submission while
+    the first of them run — global queueInLoop order must hold across whatever the drain does with a long batch.
+    Directed (`follow`), no enumeration.  full=False: the two cheap ones of the quick tier."""
+    out = []
+
+    def prog(tasks, pre, threads, follow):
+        p = Prog()
+        p.mode, p.tasks, p.pre, p.threads, p.follow = "plain", tasks, pre, threads, follow
+        return p
+    # queued before loop(); functor 1 queues a late one when it runs
+    out.append(("burst:pre-loop-1500", prog({1: ["q9000"]}, ["qburst1x1500"], {}, [0])))
+    # a foreign thread queues the burst while the loop thread is held inside a drain (after functor 1 of the batch in
+    # progress); functor 2, the first of the burst, queues the late one
+    out.append(("burst:foreign-1500-loop-held", prog({1: [], 2: ["q9000"]}, ["q1"], {1: ["qburst2x1500"]}, [0] * 9 + [1])))
+    if not full:
+        return out
+    out.append(("burst:pre-loop-5000", prog({1: ["q9000"]}, ["qburst1x5000"], {}, [0])))
+    for n in (1023, 1024, 1025, 2047, 2049, 4096, 4097):
+        out.append(("burst:boundary-%d" % n, prog({1: ["q9000"], 2: ["q9001"]}, ["qburst1x%d" % n], {}, [0])))
+    # the burst is queued by a functor (inside the drain), its first functor queues the late one; then quit: final drain
+    out.append(("burst:nested-1500", prog({1: ["qburst2x1500"], 2: ["q9000"]}, ["q1"], {1: ["quit"]}, [0] * 4000)))
+    # foreign burst + quit while the loop is held: everything runs in the drain after the `while`
+    out.append(("burst:foreign-5000-then-quit", prog({1: [], 2: ["q9000"]}, ["q1"], {1: ["qburst2x5000", "quit"]}, [0] * 9 + [1])))
+    # the late submission comes from a foreign thread while the first functors of a pre-loop burst run
+    out.append(("burst:late-foreign", prog({}, ["qburst1x1500"], {1: ["q9000", "q9001"]}, [0] * 3007 + [1, 1, 0, 0, 0, 1])))
+    # two foreign bursts interleaved at random, one of their functors queues a late one
+    out.append(("burst:two-submitters", prog({100: ["q9000"]}, [], {1: ["qburst100x800"], 2: ["qburst2000x800"]},
+                                            gen_follow(rng, [0, 1, 2], 120))))
+    return out
+
+
 def search_programs(which):
     """targeted programs for the search mode (an obligation or a tie broke): every raw schedule within a small
     preemption bound, run right after the corpus.  They aim at the window the harness opens immediately before the
@@ -1058,6 +1122,11 @@ def correspondence(prop, ctx, replay_file, which):
         as soon as the mode is entered.  Returns ctx.stop()."""
         if ctx.search_mode and not rn.searched:
             rn.searched = True
+            if which == "C04" and not rn.bursts_full:
+                rn.bursts_full = True
+                rn.run_progs(exe, burst_programs(ctx.rng, True), "search")
+                if ctx.stop():
+                    return True
             for name, p, bound in search_programs(which):
                 rn.exhaustive(exe, p, bound, 4000, "search:" + name)
                 if ctx.stop():
@@ -1078,11 +1147,16 @@ def correspondence(prop, ctx, replay_file, which):
         rn.corpus(exe, ["C04", "C05"])
         if searched():
             return None
-        # 2. directed families: a racing call after every number of steps of the loop thread
+        # 2. directed families: a racing call after every number of steps of the loop thread; long batches (C04)
         sw = sweeps()
         rn.run_progs(exe, sw, "sweep")
         if searched():
             return None
+        if which == "C04" and not rn.bursts_full:
+            rn.bursts_full = not quick()
+            rn.run_progs(exe, burst_programs(ctx.rng, not quick()), "burst")
+            if searched():
+                return None
         # 3. random programs and schedules
         done = 0
         while done < (700 if quick() else 30000) and not ctx.stop():
@@ -1158,10 +1232,27 @@ def correspondence(prop, ctx, replay_file, which):
     return None
 
 
+def abbreviated(impl, fails, limit=400):
+    """a long log for the terminal: its head, the lines around the oracle's first failure, its tail"""
+    if len(impl) <= limit:
+        return impl
+    keep = set(range(0, 40)) | set(range(len(impl) - 25, len(impl)))
+    m = re.match(r"line (\d+):", fails[0][1]) if fails else None
+    if m:
+        keep |= set(range(max(0, int(m.group(1)) - 25), min(len(impl), int(m.group(1)) + 10)))
+    out, last = [], -1
+    for i in sorted(keep):
+        if i != last + 1:
+            out.append("   … %d lines …" % (i - last - 1))
+        out.append(impl[i])
+        last = i
+    return out
+
+
 def replay(prop, ctx, exe, lines, kinds):
     prog = parse_case(lines)
     r = evaluate(exe, prog, ctx.model_ok)
-    print("\n".join(r.impl))
+    print("\n".join(abbreviated(r.impl, r.fails)))
     print("oracle: %s" % (r.fails or "accepts"))
     print("model : %s" % (r.mismatch or "agrees"))
     rn = Runner(prop, ctx, kinds)
